@@ -57,17 +57,18 @@ def amb(ctx):
     return getattr(ctx, 'ambient', None)
 
 
-def budget(ctx, n):
-    """random-stream budget: a quarter in a child of the ambient sweep (11 children run per check)"""
-    return max(1, n // 4) if amb(ctx) else n
+def budget(ctx, n, div=4):
+    """random-stream budget: a quarter in a child of the ambient sweep (11 children run per check); an eighth for the
+    split_by_commas streams, whose calls cost ~0.5 ms each (the grammar is rebuilt on every call)"""
+    return max(1, n // div) if amb(ctx) else n
 
 
-def thin(ctx, stream):
-    """enumerated families: in a child every 4th case, starting at an offset that depends on the configuration, so
+def thin(ctx, stream, div=4):
+    """enumerated families: in a child every 4th (8th) case, starting at an offset that depends on the configuration, so
     the children together still cover the enumeration and every family / call form is represented in each"""
     if not amb(ctx):
         return stream
-    return itertools.islice(stream, sum(map(ord, amb(ctx))) % 4, None, 4)
+    return itertools.islice(stream, sum(map(ord, amb(ctx))) % div, None, div)
 
 
 # The pinned public signatures (clean tree, written down here as data - not read from the tree under test).
@@ -324,7 +325,11 @@ def gen_path_edge_cases(quick):
 
 
 def long_text(rng, n, alphabet):
-    return ''.join(rng.choice(alphabet) for _ in range(n))
+    """n characters over the alphabet: a random block of 97 characters repeated (cheap to build at 70000)"""
+    if n <= 200:
+        return ''.join(rng.choice(alphabet) for _ in range(n))
+    block = ''.join(rng.choice(alphabet) for _ in range(97))
+    return (block * (n // 97 + 1))[:n]
 
 
 def gen_path_long_cases(rng):
@@ -475,13 +480,13 @@ def malformed_by_construction(rng):
 def gen_commas_cases(ctx):
     rng = ctx.rng
     nmax = 4 if ctx.quick else 6
-    for t in thin(ctx, (t for n in range(0, nmax + 1) for t in itertools.product(SMALL_ALPHA, repeat=n))):
+    for t in thin(ctx, (t for n in range(0, nmax + 1) for t in itertools.product(SMALL_ALPHA, repeat=n)), 8):
         yield {'kind': 'commas', 'value': ''.join(t)}, 'exh<=%d' % nmax
-    for _ in range(budget(ctx, 6000 if ctx.quick else 60000)):
+    for _ in range(budget(ctx, 6000 if ctx.quick else 60000, 8)):
         style = rng.choice(['canon', 'canon', 'allq', 'padded'])
         items = gen_items(rng, exotic=0.05 if rng.random() < 0.3 else 0.0)
         yield {'kind': 'commas', 'value': encode_items(rng, items, style), 'items': items, 'style': style}, 'items/' + style
-    for _ in range(budget(ctx, 4000 if ctx.quick else 40000)):
+    for _ in range(budget(ctx, 4000 if ctx.quick else 40000, 8)):
         if rng.random() < 0.5:
             v = mutate(rng, encode_items(rng, gen_items(rng), rng.choice(['canon', 'allq', 'padded'])))
             yield {'kind': 'commas', 'value': v}, 'mutated'
@@ -489,10 +494,10 @@ def gen_commas_cases(ctx):
             v, why = malformed_by_construction(rng)
             yield {'kind': 'commas', 'value': v, 'expect': 'ValueError', 'why': why}, 'malformed'
     esc = ['\\', '\\', '\\', 'x', 'u', '0', '3', '7', '2', '4', 'a', 'F', 't', 'n', 'g', '9', '"', ' ']
-    for _ in range(budget(ctx, 3000 if ctx.quick else 30000)):
+    for _ in range(budget(ctx, 3000 if ctx.quick else 30000, 8)):
         body = ''.join(rng.choice(esc) for _ in range(rng.randrange(0, 9)))
         yield {'kind': 'commas', 'value': rng.choice(['', 'a,', ' ']) + '"' + body + '"' + rng.choice(['', '', ',b'])}, 'escapes'
-    for items, tag in gen_long_items(rng, ctx.quick):
+    for items, tag in thin(ctx, gen_long_items(rng, ctx.quick)):
         for style in ('canon', 'allq'):
             yield {'kind': 'commas', 'value': encode_items(rng, items, style), 'items': items, 'style': style}, tag
     for items in gen_blank_items(rng):
@@ -500,7 +505,7 @@ def gen_commas_cases(ctx):
     for v in gen_blank_values():
         yield {'kind': 'commas', 'value': v}, 'blank-values'
     raw = ['"', '"', ',', '\\', '\\', ' ', 'a', 'b', 't', 'n', 'x', 'u', '0', '3', '4', '2', '7', 'f', '\n', '\t', '\r', '\u00e9', '\x0b']
-    for _ in range(budget(ctx, 4000 if ctx.quick else 40000)):
+    for _ in range(budget(ctx, 4000 if ctx.quick else 40000, 8)):
         yield {'kind': 'commas', 'value': ''.join(rng.choice(raw) for _ in range(rng.randrange(0, 11)))}, 'raw'
 
 
@@ -562,9 +567,9 @@ def correspondence(ctx):
     out = []
     rng = ctx.rng
     streams = [
-        with_forms(thin(ctx, gen_path_cases_exhaustive(5 if ctx.quick else 7))),
+        with_forms(thin(ctx, gen_path_cases_exhaustive(5 if ctx.quick else 7), 8)),
         with_forms(thin(ctx, gen_path_edge_cases(ctx.quick)), 1),
-        with_forms(gen_path_long_cases(rng), 2),
+        with_forms(thin(ctx, gen_path_long_cases(rng)), 2),
         with_forms((((gen_path_random(rng)), 'random') for _ in range(budget(ctx, 20000 if ctx.quick else 300000))), 3),
         thin(ctx, gen_all_forms_cases(ctx.quick)),
         with_forms(gen_commas_cases(ctx)),
@@ -1180,8 +1185,8 @@ def search(ctx, seeds, full=False):
     # blanks / control characters at every structural position, and long inputs: always in full
     families = [c for c, _ in thin(ctx, gen_all_forms_cases(ctx.quick))]
     families += [c for c, _ in thin(ctx, gen_path_edge_cases(ctx.quick))]
-    families += [c for c, _ in gen_path_long_cases(rng)]
-    for items, _ in gen_long_items(rng, ctx.quick):
+    families += [c for c, _ in thin(ctx, gen_path_long_cases(rng))]
+    for items, _ in thin(ctx, gen_long_items(rng, ctx.quick)):
         families.append({'kind': 'commas', 'items': items, 'value': ','.join(py_quote_if_needed(x) for x in items),
                          'style': 'canon'})
     for items in gen_blank_items(rng):
@@ -1215,7 +1220,7 @@ def search(ctx, seeds, full=False):
         if len(fails) >= 5:
             return fails
     # split_by_commas: round trip over printable ASCII, malformed classes, grammar verdict
-    n = budget(ctx, (6000 if full else 3000) if ctx.quick else (80000 if full else 30000))
+    n = budget(ctx, (6000 if full else 3000) if ctx.quick else (80000 if full else 30000), 8)
     for i in range(n):
         r = i % 4
         if r in (0, 1):
